@@ -120,6 +120,9 @@ def matcher(f, known):
     return None
 
 
+QUICK_N = {"C14": 960, "C15": 640, "C18": 960, "C09": 640, "C08": 640, "C05": 480, "C03": 480, "C06": 480, "C16": 480, "C17": 480}
+
+
 def merge(a, b):
     for k, v in b.items():
         if isinstance(v, dict):
@@ -179,8 +182,9 @@ def replay(prop, path, matcher_fn=None):
 def main(tier, seed, prop="C04", worker_fn=None, rule=None, assumptions=None, matcher_fn=None, corpus_task=False):
     t0 = time.time()
     lean_info, lean_problems = core.lean_stage(prop)
-    n = 320 if tier == "quick" else 6000
-    chunks = 16 if tier == "quick" else 64
+    # quick budgets: the cheap checks (seconds per hundred cases) run more cases
+    n = QUICK_N.get(prop, 320) if tier == "quick" else 6000
+    chunks = (16 if n <= 320 else 32) if tier == "quick" else 64
     tasks = ([(-1, 0)] if corpus_task else []) + [(n // chunks, seed * 7919 + i) for i in range(chunks)]
     modname = (worker_fn or worker).__module__
     if tier == "thorough":
